@@ -49,6 +49,17 @@ class staterror_builder:
             else [0.0] * self.config.channel_nbins[channel]
         )
         moddata = self.collect(thismod, nom)
+        # check the shape channel by channel: after the concatenation over
+        # channels in finalize() a surplus in one channel can be compensated
+        # by a deficit in another one
+        if len(moddata['nom_data']) != len(moddata['uncrt']):
+            _modifier_type, _modifier_name = key.split("/")
+            raise InvalidModifier(
+                f"The '{sample}' sample {_modifier_type} modifier"
+                + f" '{_modifier_name}' has data shape inconsistent with the sample in channel '{channel}'.\n"
+                + f"{sample} has 'data' of length {len(moddata['nom_data'])} but {_modifier_name}"
+                + f" has 'data' of length {len(moddata['uncrt'])}."
+            )
         self.builder_data[key][sample]['data']['mask'].append(moddata['mask'])
         self.builder_data[key][sample]['data']['uncrt'].append(moddata['uncrt'])
         self.builder_data[key][sample]['data']['nom_data'].append(moddata['nom_data'])
